@@ -76,7 +76,7 @@ def g3(n):
     return v
 
 
-NESTED = {"S21": (2, 1), "S2m1": (2, -1), "Sm21": (-2, 1), "Sm2m1": (-2, -1), "S31": (3, 1), "Sm31": (-3, 1), "Sm22": (-2, -2),
+NESTED = {"S21": (2, 1), "S2m1": (2, -1), "Sm21": (-2, 1), "Sm2m1": (-2, -1), "S31": (3, 1), "Sm31": (-3, 1), "Sm22": (-2, 2),
           "S211": (2, 1, 1), "Sm211": (-2, 1, 1)}
 
 
